@@ -27,6 +27,9 @@ type Cfg struct {
 	Nt      int    `json:"nt"`
 	Shape   string `json:"shape"` // "split" | "fan"
 	Partial bool   `json:"partial"`
+	// Hold: another session keeps the only permit of sender domain src.example
+	// (source concurrency 1) for the whole conversation.
+	Hold bool `json:"hold"`
 }
 
 // Step is one entry of the behaviour history printed by TLC.
@@ -225,6 +228,10 @@ func node(name string, args []string, children ...config.Node) config.Node {
 }
 
 func endpointConfig(c Cfg) []config.Node {
+	srcLimit := "10"
+	if c.Hold {
+		srcLimit = "1"
+	}
 	yn := "no"
 	if c.Defer {
 		yn = "yes"
@@ -251,7 +258,7 @@ func endpointConfig(c Cfg) []config.Node {
 		node("limits", nil,
 			node("all", []string{"concurrency", "10"}),
 			node("ip", []string{"concurrency", "10"}),
-			node("source", []string{"concurrency", "10"})),
+			node("source", []string{"concurrency", srcLimit})),
 		node("check", nil, node("verifnamed", []string{"CK"})),
 		node("default_source", nil, dests...),
 	}
@@ -261,7 +268,7 @@ func runBehaviour(t *testing.T, b Behaviour, w io.Writer) {
 	synctest.Test(t, func(t *testing.T) {
 		tr := vtrace.New(w, b.ID)
 		tr.Emit("Cfg", vtrace.Ev{"lmtp": b.Cfg.Lmtp, "defer": b.Cfg.Defer, "nt": b.Cfg.Nt,
-			"shape": b.Cfg.Shape, "partial": b.Cfg.Partial})
+			"shape": b.Cfg.Shape, "partial": b.Cfg.Partial, "hold": b.Cfg.Hold})
 		cmds, plans := ScriptOf(b.Hist)
 		var targets []*scripted.NamedTarget
 		for i := 1; i <= b.Cfg.Nt; i++ {
@@ -298,6 +305,15 @@ func runBehaviour(t *testing.T, b Behaviour, w io.Writer) {
 			t.Fatalf("endpoint init: %v", err)
 		}
 
+		releaseHeld := func() {}
+		if b.Cfg.Hold {
+			rel, err := endp.VerifSessionHoldMsgPermit(srcDom)
+			if err != nil {
+				t.Fatalf("holding the source permit: %v", err)
+			}
+			releaseHeld = rel
+		}
+
 		conn := &tapConn{tr: tr, script: cmds, lines: wire(b.Cfg.Lmtp), body: dataBody,
 			permits: endp.VerifSessionPermits, mode: "cmd", done: make(chan struct{})}
 		l := newOneListener(conn)
@@ -322,6 +338,7 @@ func runBehaviour(t *testing.T, b Behaviour, w io.Writer) {
 		p := endp.VerifSessionPermits()
 		tr.Emit("End", vtrace.Ev{"open": open, "nopen": nopen, "all": p["all"], "ip": p["ip"], "source": p["source"],
 			"sessions": endp.ConnectionCount(), "unsent": len(cmds) - conn.idx, "chkOpen": ck.OpenStates()})
+		releaseHeld()
 		l.Close()
 		endp.Close()
 		<-served
